@@ -66,6 +66,28 @@ def menu(fam, m):
     add(["\t", first])
     add(["Q", "?", "", legal[-1]] if nd not in legal else ["Q", "?", legal[-1]])
     add([m + ":" + first, first])
+    for v in (legal[0], legal[-1]):
+        add(lookalikes(v) + [first])
+    return out
+
+
+def lookalikes(v):
+    """Characters that are not the letters of v but that a normalising (NFKC) or case-mapping
+    comparison turns into them: full-width forms, circled and mathematical letters, superscripts,
+    long s / dotless i / Kelvin sign. None of them is a legal answer (the last three are admitted
+    either way by the model: Unicode upper-casing maps them onto ASCII letters)."""
+    out = []
+    fw = "".join(chr(ord(c) + 0xFEE0) if "!" <= c <= "~" else c for c in v)
+    out += [fw, "".join(chr(ord(c) + 0xFEE0) if "!" <= c <= "~" else c for c in v.lower())]
+    if len(v) == 1 and v.isalpha():
+        i = ord(v.upper()) - 65
+        out += [chr(0x24B6 + i), chr(0x1D400 + i), chr(0x1F130 + i)]
+        sup = {"N": "\u207f", "L": "\u02e1", "H": "\u02b0", "P": "\u1d56", "A": "\u1d2c", "X": "\u02e3"}
+        if v.upper() in sup:
+            out.append(sup[v.upper()])
+    for a, b in (("S", "\u017f"), ("I", "\u0131"), ("K", "\u212a"), ("I", "\u0130")):
+        if a in v.upper():
+            out.append(v.upper().replace(a, b))
     return out
 
 
@@ -138,6 +160,60 @@ def _task(t):
     return acc
 
 
+def _stream_task(t):
+    """The builder on a REAL text stream (a pipe wrapped the way sys.stdin is: FileIO, BufferedReader,
+    TextIOWrapper) from which the calling program has already read a line of its own: every answer
+    is in the pipe before the first question is asked. Question order is learnt from a reactive run
+    (and judged there); here only the result counts."""
+    import io
+    import os
+    import sys
+    import cvss.interactive as I
+    fam, allm, cut = t
+    acc = sweep.new_acc()
+    acc["n"] += 1
+    dflt = default_for(fam)
+    order = []
+    for m in dialogue.run_builder(fam, allm, True, {}, dflt)["asked"]:
+        if m is not None and m not in order:
+            order.append(m)
+    answers = [T.METRICS[fam][m][-1] for m in order]
+    want = T.PREFIX[fam] + "/".join("%s:%s" % (m, a) for m, a in zip(order, answers))
+    if cut is not None:
+        answers = answers[:cut]
+    r, w = os.pipe()
+    os.write(w, ("a line the calling program reads itself\n" + "".join(a + "\n" for a in answers)).encode("utf-8"))
+    os.close(w)
+    stream = io.TextIOWrapper(io.BufferedReader(io.FileIO(r, "r")), encoding="utf-8")
+    out = io.StringIO()
+    old = sys.stdin, sys.stdout
+    sys.stdin, sys.stdout = stream, out
+    got = None
+    try:
+        try:
+            sys.stdin.readline()
+            got = ("result", I.ask_interactively(dialogue.VERSION_ARG[fam], allm, True))
+        except EOFError:
+            got = ("eof",)
+        except BaseException as e:  # noqa
+            got = ("exc", "%s: %s" % (type(e).__name__, e))
+    finally:
+        sys.stdin, sys.stdout = old
+        stream.close()
+    expect = ("result", want) if cut is None else ("eof",)
+    acc["calls"] += len(answers)
+    acc["cmp"] += 1
+    if got != expect:
+        sweep.bad(acc, {"what": "ask_interactively(%s, all_metrics=%s) reading a pipe that holds %s, after the caller "
+                        "read a line of its own from the same stream: %r, expected %r" % (
+                            fam, allm, "every answer" if cut is None else "the first %d answers" % cut, got, expect),
+                        "kind": "stream", "family": fam, "input": {"all": allm, "cut": cut},
+                        "signature": {"kind": "stream", "family": fam}})
+    else:
+        acc["nontrivial"] += 1
+    return acc
+
+
 def scripts_upto(fam, allm, d):
     ms = dialogue.expected_metrics(fam, allm)
     menus = dict((m, menu(fam, m)) for m in ms)
@@ -184,6 +260,8 @@ def run(ctx, res):
         for i in range(0, len(sc1), 400):
             tasks.append((fam, allm, False, 1, i, i + 400))
     accs = core.task_map(_task, ctx.rot(tasks))
+    accs += core.task_map(_stream_task, [(fam, allm, cut) for fam in T.FAMILIES for allm in (False, True)
+                                         for cut in (None, 0, 2)])
     tot = sweep.merge(accs)
     cov = res.coverage
     cov["states"] = tot["n"]
@@ -211,6 +289,9 @@ def run(ctx, res):
 
 def replay(case):
     i = case["input"]
+    if case.get("kind") == "stream":
+        acc = _stream_task((case["family"], i["all"], i["cut"]))
+        return bool(acc["bad"]), acc["bad"][0]["what"] if acc["bad"] else "as answered"
     why, run = judge(case["family"], i["all"], i["no_colors"], i["script"], i.get("version_arg"))
     return bool(why), why or "as the model predicts"
 
